@@ -72,21 +72,24 @@ func (u *UEPolicySectionManagementSubResult) SetPlmnDigit(mcc, mnc int) error {
 	if *u.Mcc < 99 || *u.Mcc > 999 {
 		return fmt.Errorf("MCC must be positive 3-digit, mcc:%d", u.Mcc)
 	}
-	if *u.Mnc < 9 || *u.Mcc > 999 {
+	if *u.Mnc < 9 || *u.Mnc > 999 {
 		return fmt.Errorf("MCC must be positive 2 or 3-digit, mnc:%d", u.Mnc)
 	}
-	// PlmnDigit1
-	u.PlmnDigit1 = (uint8((*u.Mcc%100)/10) << 4) | (uint8(*u.Mcc % 10))
+	// TS 24.008 10.5.1.3: digit 1 is the most significant digit
+	// PlmnDigit1 = MCC digit 2 + MCC digit 1
+	u.PlmnDigit1 = (uint8((*u.Mcc%100)/10) << 4) | (uint8(*u.Mcc / 100))
 
-	// PlmnDigit2
 	if *u.Mnc < 100 {
-		u.PlmnDigit2 = (0xF0) | (uint8(*u.Mcc / 100))
+		// PlmnDigit2 = 1111 + MCC digit 3
+		u.PlmnDigit2 = (0xF0) | (uint8(*u.Mcc % 10))
+		// PlmnDigit3 = MNC digit 2 + MNC digit 1
+		u.PlmnDigit3 = (uint8(*u.Mnc%10) << 4) | (uint8(*u.Mnc / 10))
 	} else {
-		u.PlmnDigit2 = (uint8(*u.Mnc/100) << 4) | (uint8(*u.Mcc / 100))
+		// PlmnDigit2 = MNC digit 3 + MCC digit 3
+		u.PlmnDigit2 = (uint8(*u.Mnc%10) << 4) | (uint8(*u.Mcc % 10))
+		// PlmnDigit3 = MNC digit 2 + MNC digit 1
+		u.PlmnDigit3 = (uint8((*u.Mnc%100)/10) << 4) | (uint8(*u.Mnc / 100))
 	}
-
-	// PlmnDigit3
-	u.PlmnDigit3 = (uint8((*u.Mnc%100)/10) << 4) | (uint8(*u.Mnc % 10))
 
 	return nil
 }
@@ -161,10 +164,11 @@ func parseUEPlcSubResult(buf *bytes.Buffer) (*UEPolicySectionManagementSubResult
 	if mccDig3 > 9 {
 		return nil, fmt.Errorf("MCC Digit3 larger than 9")
 	}
+	twoDigitMnc := false
 	if mncDig3 > 9 {
 		if mncDig3 == 15 {
 			// If a network operator decides to use only two digits in the MNC, MNC digit 3 shall be coded as "1111"
-			mncDig3 = 0
+			twoDigitMnc = true
 		} else {
 			return nil, fmt.Errorf("MNC Digit3 larger than 9")
 		}
@@ -185,8 +189,13 @@ func parseUEPlcSubResult(buf *bytes.Buffer) (*UEPolicySectionManagementSubResult
 	}
 	u.Mcc = new(int)
 	u.Mnc = new(int)
-	*u.Mcc = int(mccDig1) + int(mccDig2)*10 + int(mccDig3)*100
-	*u.Mnc = int(mncDig1) + int(mncDig2)*10 + int(mncDig3)*100
+	// TS 24.008 10.5.1.3: digit 1 is the most significant digit
+	*u.Mcc = int(mccDig1)*100 + int(mccDig2)*10 + int(mccDig3)
+	if twoDigitMnc {
+		*u.Mnc = int(mncDig1)*10 + int(mncDig2)
+	} else {
+		*u.Mnc = int(mncDig1)*100 + int(mncDig2)*10 + int(mncDig3)
+	}
 
 	// UEPolicySectionManagementSubResultContents
 	if int(u.Len-3) < 0 {
